@@ -159,7 +159,9 @@ F_OrderGuard == Family # "order"
 (* (DESIGN.md appendix C) are left to the dedicated families that carry the  *)
 (* deviation's prediction ("order", "alloc"); elsewhere both operands must   *)
 (* have kinds on which the reference rank and the implemented rank agree,    *)
-(* sequences are compared only with sequences of the same Go type, `in`      *)
+(* sequences are compared only with sequences of the same Go type and are    *)
+(* never the left operand of `in` (equality of sequences of different Go     *)
+(* types is undocumented: Dev_DeepEqualSequences), `in`                      *)
 (* takes no range on the right (inRange rewrite), and no slice has calls in  *)
 (* both bounds.                                                              *)
 RankAgree(a, b) == (a \in NumKinds /\ b \in NumKinds) => Higher(a, b, {}) = Higher(a, b, {"Dev_RankIntBelowInt8"})
@@ -170,7 +172,8 @@ F_Guard(op, l, r, s) ==
   /\ (op \in {"==", "!="} => ~(l.ty = "any" /\ (IsSliceT(r.ty) \/ IsMapTy(r.ty))) /\ ~(r.ty = "any" /\ (IsSliceT(l.ty) \/ IsMapTy(l.ty))))
   /\ (op \in {"in", "not in"} /\ Family \notin {"order", "laws"} => r.e.k # "bin")
   /\ (op = "in" /\ Family = "laws" => (l.ty = "int" /\ r.e.k = "bin"))
-  /\ (op \in {"in", "not in"} /\ r.e.k = "arr" => ~IsSliceT(l.ty) /\ ~IsMapTy(l.ty))
+  /\ (op \in {"in", "not in"} => /\ ~IsSliceT(l.ty) /\ ~IsMapTy(l.ty)     \* no sequence/map looked up in a collection,
+                                 /\ (l.ty = "any" => r.e.k = "id"))    \* whatever form the collection takes
   /\ (op = ".." => l.ty # "any" /\ r.ty # "any")
 
 ---------------------------------------------------------------------------
@@ -182,7 +185,8 @@ Spec == Init /\ [][Next]_gvars
 (* show in this family: for each run the outcome under each of them is       *)
 (* emitted next to the reference outcome when the two differ, so that a      *)
 (* failing real execution is attributed to a known finding mechanically.     *)
-F_Devs == CASE Family \in {"coll", "mixed"} -> {"Dev_InArrayStringUntyped"}
+F_Devs == CASE Family \in {"coll", "mixed"} -> {"Dev_InArrayStringUntyped", "Dev_SliceToBeforeFrom"}
+            [] Family = "string" -> {"Dev_SliceToBeforeFrom"}
             [] Family = "order" -> {"Dev_SliceToBeforeFrom", "Dev_InRangeRewrite"}
             [] Family = "alloc" -> {"Dev_RangeSizeSigned"}
             [] Family = "laws" -> {"Dev_InRangeRewrite"}
